@@ -68,6 +68,17 @@ def base_cases(rng, n):
     return out
 
 
+def hitl_loop(script):
+    """Documented human-in-the-loop chat loop (docs/03-patterns/07-human-in-the-loop.md): the interrupt is
+    the first step of a gate-driven cycle whose gate waits for the end-of-turn signal; `messages` is bound."""
+    ask = IR.interrupt("ask_user", ["messages"], ["user_input"], pause_at=[1, 2, 3])
+    add = IR.func("add_user_message", ["messages", "user_input"], ["messages"])
+    genr = IR.func("generate", ["messages"], ["response"])
+    acc = IR.normalize_node(dict(name="accumulate", kind="func", inputs=["messages", "response"], outputs=["messages", "turn_done"], ndata=1))
+    gate = IR.route("should_continue", ["messages"], ["ask_user", "END"], script, wait_for=["turn_done"])
+    return IR.prog("top", [ask, add, genr, acc, gate], bound=[["messages", "bound.top.messages"]], max_iter=6)
+
+
 def nested_cases(rng, n):
     """An interrupt inside a nested graph (depth 1-2): pause identity only."""
     out = []
@@ -98,6 +109,10 @@ def run(tier, seed):
             pre = [[o, f"ans.{i}.{o}"] for o in byname[i]["outputs"][: byname[i]["ndata"]]]
         chains.append({"prog": prog, "base": base, "provided": base + pre, "done": False, "pauses": [], "stage": 0, "ints": ints})
         ctx.distinct(IR.struct_hash([prog, base, pre]))
+    for script in ([["END"]], [["ask_user"], ["END"]]):
+        prog = hitl_loop(script)
+        chains.append({"prog": prog, "base": [], "provided": [], "done": False, "pauses": [], "stage": 0, "ints": ["ask_user"], "cyclic": True})
+        ctx.distinct(IR.struct_hash([prog, "hitl"]))
     # the auto-answering real run (handlers return the answers themselves)
     for ch in chains:
         auto = copy.deepcopy(ch["prog"])
@@ -145,20 +160,24 @@ def run(tier, seed):
                     continue
                 ran = {c["node"] for c in o["calls"]}
                 bad = sorted(n for n in ran if depends_on(ch["prog"], pz["path"], n))
-                if bad:
+                if bad and not ch.get("cyclic"):      # in a loop the dependants of the previous turn have run
                     ctx.violation("dependant-ran-before-answer", wit, f"{bad} depend on {pz['path']} and were invoked before the answer")
                     continue
                 if o["values"] != m["values"]:
                     ctx.violation("paused-values", wit, f"values at pause {o['values']} expected {m['values']}")
                     continue
-                for k2, v in o["values"].items():
+                for k2, v in ({} if ch.get("cyclic") else o["values"]).items():
                     if ch["auto"]["values"].get(k2) != v and k2 not in dict(map(tuple, ch["provided"])):
                         ctx.violation("paused-value-incorrect", wit, f"{k2}={v} differs from the uninterrupted run {ch['auto']['values'].get(k2)}")
                         break
                 else:
-                    if pz["path"] in ch["pauses"]:
+                    if pz["path"] in ch["pauses"] and not ch.get("cyclic"):
                         ctx.violation("paused-twice", wit, f"{pz['path']} paused again although its answer was supplied")
                         continue
+                    if ch.get("cyclic"):
+                        ctx.bump("pauses_inside_a_loop")
+                    if ch.get("cyclic") and len(ch["pauses"]) >= 2:
+                        continue          # every resume of the stateless chat loop handles one turn: two stages suffice
                     ch["pauses"].append(pz["path"])
                     ans = [[o2, f"ans.{pz['path']}.{o2}"] for o2 in node["outputs"][: node["ndata"]]]
                     have = dict(map(tuple, ch["provided"]))
@@ -167,7 +186,7 @@ def run(tier, seed):
                     ch["stage"] += 1
                 continue
             if o["status"] == "completed":
-                if o["values"] != ch["auto"]["values"]:
+                if o["values"] != ch["auto"]["values"] and not (ch.get("cyclic") and ch["auto"]["status"] != "completed"):
                     d = {k2: (o["values"].get(k2), ch["auto"]["values"].get(k2)) for k2 in set(o["values"]) | set(ch["auto"]["values"]) if o["values"].get(k2) != ch["auto"]["values"].get(k2)}
                     ctx.violation("resume-result-differs", wit, f"after resuming, values differ from the run whose handlers answer themselves: {d}")
                     continue
